@@ -3,8 +3,8 @@ from __future__ import annotations
 
 import ast as _ast
 
-from ..common import all_conds, conds_at, nshow, outer_field, paths
-from ..expr import C, SELF, canon, norm, show, strip_epochs, walk
+from ..common import CM_ANCHORS, all_conds, apaths, conds_at, nshow, outer_field, paths
+from ..expr import C, SELF, canon, norm, posroot, rowform, show, strip_epochs, walk
 from ..model import AnalysisError
 
 EXPL = ("add_alt, remove_alt and check_alt must address the same cell per row: the index expression of every access to the "
@@ -19,24 +19,29 @@ SLOT = "_CountMinSketch__query_method"
 TOTAL = "_CountMinSketch__elements_added"
 
 
-def elem_form(idx):
-    """reduce an index to (element expression, domain) : bins[i] / for x in bins -> element of the comprehension"""
-    idx = strip_epochs(idx)
-    comp = None
-    if idx[0] == "sub" and idx[1][0] == "comp" and idx[2][0] == "ix":
-        comp = idx[1]
-    elif idx[0] == "it" and idx[2][0] == "comp":
-        comp = idx[2]
-    if comp is None or len(comp[3]) != 1:
-        return None
-    return canon(comp[2]), canon(comp[3][0][2])
+BINS = ("f", SELF, "_bins", 0)
+WIDTH = ("f", SELF, "_CountMinSketch__width", 0)
+
+
+def rf(e):
+    """canonical row form: positional indexing resolved to the underlying per-row expression"""
+    return canon(rowform(e))
+
+
+def leaves(v):
+    """the alternatives a conditional expression / min / max selects between"""
+    if v[0] == "phi":
+        return leaves(v[2]) | leaves(v[3])
+    if v[0] == "call" and v[1] in (("g", "min"), ("g", "max")) and len(v[2]) == 2 and not v[3]:
+        return leaves(v[2][0]) | leaves(v[2][1])
+    return {v}
 
 
 def cell_accesses(ps):
     out = []
     for p in ps:
         for e in p.events:
-            if e.kind == "setelem" and outer_field(e.cont) == "_bins" and strip_epochs(e.cont) == ("f", SELF, "_bins", 0):
+            if e.kind == "setelem" and outer_field(e.cont) == "_bins" and strip_epochs(e.cont) == BINS:
                 out.append(("store", e.index, e, p))
             vals = []
             if e.kind in ("setelem", "setfield", "return"):
@@ -45,9 +50,42 @@ def cell_accesses(ps):
                 vals += list(e.args)
             for v in vals:
                 for n in walk(v):
-                    if n[0] == "sub" and strip_epochs(n[1]) == ("f", SELF, "_bins", 0):
+                    if n[0] == "sub" and strip_epochs(n[1]) == BINS:
                         out.append(("read", n[2], e, p))
     return out
+
+
+def reported_list(p):
+    """the list handed to sorted() in the returned query(sorted(R))"""
+    rv = p.exit[1]
+    if rv[0] == "call" and len(rv[2]) == 1 and rv[2][0][0] == "call" and rv[2][0][1] == ("g", "sorted") and len(rv[2][0][2]) == 1:
+        return rv[2][0][2][0]
+    return None
+
+
+def reported_value(p, R, lid):
+    """what the row of loop `lid` contributes to list R on this path: an element store / append inside the loop wins over the
+    element the list was built with"""
+    key = strip_epochs(R)
+    last = None
+    for x in p.events:
+        if not x.loops or x.loops[-1] != lid:
+            continue
+        if x.kind == "setelem" and strip_epochs(x.cont) == key:
+            ix = rowform(x.index)
+            if ix[0] != "ix" or ix[1] != lid:
+                return None
+            last = x.value
+        elif x.kind == "call" and x.name in ("append", "insert", "extend", "pop", "remove", "clear", "sort", "reverse") \
+                and x.d.get("recv") is not None and strip_epochs(x.recv) == key:
+            if x.name != "append" or len(x.args) != 1 or last is not None:
+                return None
+            last = x.args[0]
+    if last is not None:
+        return last
+    if R[0] == "comp" and posroot(R) is not None:
+        return ("it", lid, R)
+    return None
 
 
 def check(prog, rep, tier):
@@ -62,47 +100,29 @@ def check(prog, rep, tier):
     fns = {n: prog.method(CTX, n) for n in ("add_alt", "remove_alt", "check_alt")}
     allps = {}
     for n, f in fns.items():
-        ps = paths(prog, CTX, f)
+        ps = apaths(prog, CTX, f, CM_ANCHORS)
         allps[n] = ps
         rep.analysed(f, CTX, len(ps))
-        fs = set()
+        fs = {}
         for kind, idx, e, p in cell_accesses(ps):
-            ef = elem_form(idx)
-            if ef is None:
-                rep.bad("C02.address-agree", f"{CTX}.{n}", f"index {nshow(idx)}", f"{kind} of a counter at {nshow(idx)}: not an element of one row-index list", e.where())
-                fs = None
-                break
-            fs.add(ef)
-        if fs is None:
+            fs.setdefault(rf(idx), (kind, e))
+        if not fs and n != "check_alt":
+            rep.bad("C02.one-store-per-row", f"{CTX}.{n}", "no counter access", f"{n} never touches a counter", f.where())
             return
         if len(fs) != 1:
-            rep.bad("C02.address-agree", f"{CTX}.{n}", f"{len(fs)} index forms", f"{n} addresses counters in {len(fs)} different ways", f.where())
+            for a, (kind, e) in sorted(fs.items(), key=lambda kv: nshow(kv[0])):
+                rep.bad("C02.address-agree", f"{CTX}.{n}", f"index {nshow(a)}", f"{n} addresses counters in {len(fs)} different ways; {kind} at {nshow(a)}", e.where())
             return
         forms[n] = next(iter(fs))
-    hashes = ("p", "hashes")
-    dom = canon(("call", ("g", "enumerate"), (hashes,), ()))
-    want = None
-    for n, (elt, d) in forms.items():
-        if want is None:
-            want = (elt, d)
-        if (elt, d) != want:
-            rep.bad("C02.address-agree", f"{CTX}.{n}", f"index {nshow(elt)} over {nshow(d)}",
-                    f"{n} addresses cell {nshow(elt)} over {nshow(d)} but add_alt uses {nshow(want[0])} over {nshow(want[1])}: "
-                    "increments, decrements and look-ups hit different counters", fns[n].where())
+    # documented shape: (hash % width) + row * width, row = position in hashes
+    shape = canon(("bin", "+", ("bin", "%", ("it", "L", ("p", "hashes")), WIDTH), ("bin", "*", ("ix", "L", ("p", "hashes")), WIDTH)))
+    for n, a in forms.items():
+        if a != shape:
+            rep.bad("C02.address-agree", f"{CTX}.{n}", f"index {nshow(a)}",
+                    f"{n} addresses cell {nshow(a)}; expected (hash % width) + row * width with row the position in hashes: "
+                    "increments, decrements and look-ups hit different counters, rows overlap or cells are skipped", fns[n].where())
         else:
-            rep.ok("C02.address-agree", f"{CTX}.{n}: {nshow(elt)} over {nshow(d)}")
-    # documented shape: (hash % width) + row * width over enumerate(hashes)
-    elt, d = forms["add_alt"]
-    w = ("f", SELF, "_CountMinSketch__width", 0)
-    L = None
-    for n in walk(elt):
-        if n[0] == "it":
-            L = n[1]
-    if L is not None:
-        shape = canon(("bin", "+", ("bin", "%", ("it", L, ("p", "hashes")), w), ("bin", "*", ("ix", L, ("p", "hashes")), w)))
-        if elt != shape or d != dom:
-            rep.bad("C02.address-agree", f"{CTX}.add_alt", f"index {nshow(elt)}",
-                    f"cell index is {nshow(elt)} over {nshow(d)}; expected (hash % width) + row * width over enumerate(hashes): rows overlap or cells are skipped", fns["add_alt"].where())
+            rep.ok("C02.address-agree", f"{CTX}.{n}: {nshow(a)}")
     # ------------------------------------------------------------------ store / report
     for n, sign in (("add_alt", "+"), ("remove_alt", "-")):
         f = fns[n]
@@ -125,36 +145,22 @@ def check(prog, rep, tier):
                 okrow = False
                 continue
             e = st[0]
-            # loop domain is the value list built 1:1 from the row-index list
-            v = canon(e.value)
-            cellr = None
-            ef = elem_form(e.index)
-            base_ok = False
-            src = e.value
-            if src[0] == "it" and src[2][0] == "comp":
-                inner = src[2][2]
-                num = ("p", "num_els")
-                ok_inner = inner[0] in ("nary", "bin")
-                rd = [x for x in walk(inner) if x[0] == "sub" and strip_epochs(x[1]) == ("f", SELF, "_bins", 0)]
-                if len(rd) == 1:
-                    wantv = canon(("bin", sign, rd[0], num))
-                    base_ok = canon(inner) == wantv and elem_form(rd[0][2]) == ef[:2] if ef else False
-                    if not base_ok:
-                        # the list element must be built from the same cell
-                        base_ok = canon(inner) == wantv
+            lid = e.loops[-1]
+            addr = rowform(e.index)
+            stored = rf(e.value)
+            wantv = canon(("bin", sign, ("sub", BINS, addr, 0), ("p", "num_els")))
             lim = C(2**31 - 1) if sign == "+" else C(-2**31)
-            if not (base_ok or v == lim):
-                rep.bad("C02.one-store-per-row", f"{CTX}.{n}", f"store {nshow(e.value)}",
-                        f"the cell receives {nshow(e.value)}; expected cell {sign} num_els or the clamp constant", e.where())
+            odd = [x for x in leaves(stored) if x not in (wantv, lim)]
+            if odd:
+                rep.bad("C02.one-store-per-row", f"{CTX}.{n}", f"store {nshow(odd[0])}",
+                        f"the cell receives {nshow(odd[0])}; expected cell {sign} num_els or the clamp constant", e.where())
                 okrow = False
             # reported value for this row
-            over = [x for x in p.events if x.kind == "setelem" and x.cont[0] == "comp" and x.loops]
-            reported = over[-1].value if over else e.value if src[0] == "it" else None
-            if over and strip_epochs(over[-1].index)[0] != "ix":
-                reported = None
-            if reported is None or canon(reported) != v:
-                rep.bad("C02.stored-equals-reported", f"{CTX}.{n}", f"stored {nshow(e.value)} reported {nshow(reported) if reported else '?'}",
-                        f"on this branch the cell is set to {nshow(e.value)} but the row's reported value is {nshow(reported) if reported else 'something else'}: "
+            R = reported_list(p)
+            reported = reported_value(p, R, lid) if R is not None else None
+            if reported is None or rf(reported) != stored:
+                rep.bad("C02.stored-equals-reported", f"{CTX}.{n}", f"stored {nshow(stored)} reported {nshow(rf(reported)) if reported else '?'}",
+                        f"on this branch the cell is set to {nshow(stored)} but the row's reported value is {nshow(rf(reported)) if reported else 'something else'}: "
                         f"{n} returns a value that differs from what check reports afterwards", e.where())
                 okrep = False
         if okrow and any_loop:
@@ -174,13 +180,16 @@ def check(prog, rep, tier):
                 rep.bad("C02.returns-query", f"{CTX}.{n}", f"return {nshow(rv)}", f"{n} returns {nshow(rv)}, not query_method(sorted(row values))", f.where(p.exit[2]))
                 good = False
                 break
-            arg = rv[2][0][2][0]
+            arg = p.exit[1][2][0][2][0]
             if n == "check_alt":
-                okarg = arg[0] == "comp" and arg[2][0] == "sub" and strip_epochs(arg[2][1]) == ("f", SELF, "_bins", 0)
+                okarg = False
+                if arg[0] == "comp" and len(arg[3]) == 1 and not arg[3][0][3]:
+                    el = rowform(("it", "Lq", arg))
+                    okarg = el[0] == "sub" and strip_epochs(el[1]) == BINS and canon(el[2]) == forms.get("check_alt")
             else:
-                okarg = arg[0] == "comp"
+                okarg = arg[0] == "comp" or (arg[0] == "newb" and arg[1] == "list")
             if not okarg:
-                rep.bad("C02.returns-query", f"{CTX}.{n}", f"query over {nshow(arg)}", f"the query is evaluated over {nshow(arg)}, not over the row values", f.where(p.exit[2]))
+                rep.bad("C02.returns-query", f"{CTX}.{n}", f"query over {nshow(arg)}", f"the query is evaluated over {nshow(arg)}, not over one value per row", f.where(p.exit[2]))
                 good = False
                 break
             if n != "check_alt":
